@@ -226,7 +226,7 @@ class Generator:
             cl = it.body_close - it.start
             body = txt[o + 1:cl]
             body = self.strip_inner_attrs(rel, it, body)
-            if it.kind == 'struct':
+            if it.kind == 'struct' and not (c and 'nopubfields' in c.attrs):
                 body = self.pub_fields(body)
             txt = txt[:o + 1] + body + txt[cl:]
         else:
@@ -239,7 +239,8 @@ class Generator:
         extra = ''
         if c:
             for a in c.attrs:
-                extra += a + '\n'
+                if a.startswith('#'):
+                    extra += a + '\n'
         self.emit('\n' + extra + txt + '\n', 'src', src_file=rel, src_line=line_of(it.start))
         if c and c.ghost:
             self.emit(c.ghost, 'spec', src_file=c.src)
@@ -717,12 +718,42 @@ class Generator:
                         break
                     r += 1
                 lb = toks[s[r]].start
+                if ls.desugar:
+                    # R11: definitional desugaring of `for PAT in EXPR { B }` for an EXPR that is itself an
+                    # Iterator (IntoIterator::into_iter is the identity by the blanket impl)
+                    if toks[s[pi]].text != 'for' or in_tok is None:
+                        raise ToolCondition('%s: @desugar on a non-for loop' % addr)
+                    pat = txt[toks[s[pi]].end:toks[in_tok].start].strip()
+                    expr = txt[toks[in_tok].end:lb].strip()
+                    head = txt[toks[s[pi]].start:lb]
+                    nm = ls.desugar
+                    inserts.append((toks[s[pi]].start,
+                                    Seg(keep_newlines(head, 'let mut %s = %s; loop ' % (nm, expr)), 'src'), lb))
+                    self.rules.hit('R11')
+                    close_tok = match_close(toks, s[r])
+                    desugar_open = [(lb, Seg('{', 'src'), lb + 1)]
+                    for pf in c.proofs:
+                        if pf.mode == 'loophead' and int(pf.regex) == n:
+                            desugar_open.append((lb + 1, Seg('\n' + pf.text.rstrip('\n') + '\n', 'proof', oid=pf.oid,
+                                                             tags=tuple(pf.tags), ckind='proof', addr=addr), lb + 1))
+                    desugar_open.append((lb + 1, Seg(' match %s.next() { None => break, Some(%s) => {' % (nm, pat), 'src'), lb + 1))
+                    for pf in c.proofs:
+                        if pf.mode == 'loopbody' and int(pf.regex) == n:
+                            desugar_open.append((lb + 1, Seg('\n' + pf.text.rstrip('\n') + '\n', 'proof', oid=pf.oid,
+                                                             tags=tuple(pf.tags), ckind='proof', addr=addr), lb + 1))
+                    desugar_close = (toks[close_tok].start, Seg('} } }', 'src'), toks[close_tok].end)
+                else:
+                    desugar_open = desugar_close = None
+                    for pf in c.proofs:
+                        if pf.mode in ('loophead', 'loopbody') and int(pf.regex) == n:
+                            inserts.append((lb + 1, Seg('\n' + pf.text.rstrip('\n') + '\n', 'proof', oid=pf.oid,
+                                                        tags=tuple(pf.tags), ckind='proof', addr=addr), lb + 1))
                 if ls.binder:
                     if toks[s[pi]].text != 'for' or in_tok is None:
                         raise ToolCondition('%s: @binder on a non-for loop' % addr)
                     inserts.append((toks[in_tok].end, Seg(' %s:' % ls.binder, 'gen'), toks[in_tok].end))
                 lsegs = []
-                groups = [('invariant', 'invariant'), ('invariant_except_break', 'invariant_except_break'),
+                groups = [('invariant_except_break', 'invariant_except_break'), ('invariant', 'invariant'),
                           ('loop_ensures', 'ensures')]
                 for kind, kw in groups:
                     cls = [cl for cl in ls.clauses if cl.kind == kind]
@@ -736,11 +767,18 @@ class Generator:
                 lsegs.append(Seg('\n', 'gen'))
                 for sg in lsegs:
                     inserts.append((lb, sg, lb))
+                if desugar_open:
+                    inserts.extend(desugar_open)
+                    inserts.append(desugar_close)
             # proof splices
             for pf in c.proofs:
                 seg = Seg('\n' + pf.text.rstrip('\n') + '\n', 'proof', oid=pf.oid, tags=tuple(pf.tags), ckind='proof', addr=addr)
                 if pf.mode == 'start':
                     inserts.append((b_lo, seg, b_lo)); continue
+                if pf.mode in ('loophead', 'loopbody'):
+                    if int(pf.regex) not in c.loops:
+                        raise ToolCondition('%s: @proof %s %s without @loop' % (addr, pf.mode, pf.regex))
+                    continue
                 ms = list(re.finditer(pf.regex, txt[b_lo:b_hi]))
                 if len(ms) != 1:
                     raise ToolCondition('lost anchor: %s: /%s/ matches %d times (contract %s)' % (addr, pf.regex, len(ms), pf.src))
@@ -756,7 +794,7 @@ class Generator:
         elif c and (c.loops or c.proofs) and status == 'verify':
             raise ToolCondition('%s: loop/proof contract on a bodyless function' % addr)
         # assemble
-        order = sorted(range(len(inserts)), key=lambda i: (inserts[i][0], i))
+        order = sorted(range(len(inserts)), key=lambda i: (inserts[i][0], 1 if inserts[i][2] > inserts[i][0] else 0, i))
         segs = []
         cur = 0
         base_line = src_line
